@@ -77,7 +77,10 @@ def _filter_mains():
     groups["xfmt"] = ["{{ tie | money }}", "{{ tie | currency }}", "{{ tie | decimal }}", "{{ tie | unit: 'kilometer' }}",
                       "{{ tie | money_with_currency }}", "{{ tie | money_without_currency }}",
                       "{{ y | decimal }}", "{{ ts | datetime }}", "{{ tie | plus: 0.125 }}", "{{ tie | times: 3 }}",
-                      "{{ tie | divided_by: 0.5 }}", "{{ items | sum }}"]
+                      "{{ tie | divided_by: 0.5 }}", "{{ items | sum }}",
+                      # message translation against the caller's catalog (the `translations` variable)
+                      "{{ 'Hello' | t }}", "{{ 'Hello' | gettext }}", "{{ 'one' | ngettext: 'many', 2 }}",
+                      "{% translate %}Hi {{ you }}{% endtranslate %}"]
     return ["F%s[%s]" % (g, "|".join(v)) for g, v in sorted(groups.items())]
 
 
@@ -197,13 +200,16 @@ def build_world(es, loop_ref, lazy=False):
         # with different text - a storage fault must never leave that fallback behind in the cache
         fs = SimFS()
         _OPEN_FS.append(fs)
+        ext = es.get("ext")
         for i, (nm, src) in enumerate(sorted(sources.items())):
-            fs.write("root/" + nm, src, i + 1)
+            rel = nm if "." in nm.rsplit("/", 1)[-1] or not ext else nm + ext
+            fs.write("root/" + rel, src, i + 1)
         fs.mkdir("root")
         if kind == "cfs":
-            ld = liquid.CachingFileSystemLoader(fs.path("root"), auto_reload=es["auto_reload"], capacity=es["capacity"])
+            ld = liquid.CachingFileSystemLoader(fs.path("root"), ext=ext, auto_reload=es["auto_reload"],
+                                                capacity=es["capacity"])
         else:
-            ld = CachingChoiceLoader([liquid.FileSystemLoader(fs.path("root")),
+            ld = CachingChoiceLoader([liquid.FileSystemLoader(fs.path("root"), ext=ext),
                                       DictLoader({nm: "FALLBACK:" + src for nm, src in sources.items()})],
                                      auto_reload=es["auto_reload"], capacity=es["capacity"])
     else:
@@ -423,7 +429,7 @@ class C17:
             else:
                 recipe = G.gen_recipe(rng)
                 recipe["autoescape"] = rng.chance(0.4)
-            pnames = rng.sample(["p", "d/q.liquid", "r.html"], rng.randint(1, 3))
+            pnames = rng.sample(["p", "d/q.liquid", "r.html", "r.liquid"], rng.randint(1, 4))
             templates = {}
             for i, nm in enumerate(pnames):
                 tg = G.TreeGen(rng, recipe["flags"], recipe["extra"], partials=pnames[i + 1:], drops=True,
@@ -460,7 +466,7 @@ class C17:
             lkind = rng.choice(["dict", "cdict", "sim", "csim", "choice", "cchoice", "cfs", "cchfs"])
             envs.append({"recipe": recipe, "loader": lkind,
                          "ns_key": NS_KEY if lkind in ("sim", "csim", "choice", "cchoice") and rng.chance(0.4) else "",
-                         "factory": rng.chance(0.3),
+                         "factory": rng.chance(0.3), "ext": rng.choice([None, ".liquid"]),
                          "capacity": rng.choice([1, 2, 300]), "auto_reload": rng.chance(0.7),
                          "templates": templates, "mains": mains})
         datas = []
@@ -507,7 +513,8 @@ class C17:
                 # template's globals in the same step in which its request returns (sync: one call;
                 # async: no suspension between the two awaits), so no other request can re-assign
                 # them in between
-                op["tglobals"] = rng.choice([None, None, {"tg": "T1"}, {"tg": "T2", "site": "TS"}, {}])
+                op["tglobals"] = rng.choice([None, None, {"tg": "T1"}, {"tg": "T2", "site": "TS"}, {},
+                                             {"tg": 1}, {"tg": 1.0}, {"tg": True}])   # equal, differently typed
             op["fp"] = rng.chance(0.5)
             if envs[e]["loader"] in ("cfs", "cchfs") and rng.chance(0.2):
                 # a transient storage error at the k-th storage call of this render (EMFILE, EIO, ...):
@@ -542,6 +549,12 @@ class C17:
                 "lat": {"max": 0.01, "zero_p": rng.choice([0.1, 0.4]), "stall_p": 0.0}}
 
     def _special(self, rng):
+        sp = self._special_dt(rng)
+        if rng.chance(0.25):
+            sp["translations"] = ["nulltrans"]
+        return sp
+
+    def _special_dt(self, rng):
         base = [2024, 3, 5, rng.choice([0, 10, 23]), rng.choice([0, 30]), 0]
         kind = rng.choice(["dtz", "dtz", "dt", "date"])
         if kind == "dtz":
@@ -573,7 +586,7 @@ class C17:
             out["seqtypes"] = dict(d["seqtypes"])
         sp = d.get("special", {})
         if "dt" in sp and sp["dt"][0] == "dtz":
-            out["special"] = {"dt": ["dtz", sp["dt"][1], rng.choice([0, 5, -8, 3])], "dt2": sp["dt2"]}
+            out["special"] = {**sp, "dt": ["dtz", sp["dt"][1], rng.choice([0, 5, -8, 3])], "dt2": sp["dt2"]}
         else:
             out["special"] = sp
         return out
